@@ -646,7 +646,7 @@ fn run_history<Q: QueueBackend + 'static>(rng: &mut Rng, ctx: &mut Ctx, focus: F
 }
 
 pub fn run(cfg: &Cfg, rep: &mut Report, focus: Focus) {
-    let n = cfg.n(30, 150_000, 8_000_000);
+    let n = cfg.n(30, 750_000, 15_000_000);
     run_cases(cfg, "histories", n, rep, |rng, ctx| match ctx.index % 3 {
         0 => run_history::<std::collections::VecDeque<Error>>(rng, ctx, focus),
         1 => run_history::<Vec<Error>>(rng, ctx, focus),
